@@ -1,3 +1,4 @@
+import Std.Data.HashMap
 import BoaVerif.Common.Proto
 import BoaVerif.C03.Model
 import BoaVerif.C08.Model
@@ -80,6 +81,22 @@ def mergeConflict (annot : Annot) : String :=
     s!"pc={p.1} merge " ++ " / ".intercalate others
   | none => "?"
 
+/-- ranking inference (untrusted): longest distance to a counter / an exit in the graph cut at the counters, by
+    repeated reverse sweeps (most edges go forward) -/
+def inferRank (b : Block) : C08.Rank :=
+  let sweep (m : Std.HashMap Nat Nat) : Std.HashMap Nat Nat :=
+    b.instrs.reverse.foldl (fun m i =>
+      if C08.isCounter i then m.insert i.pc 0
+      else m.insert i.pc (1 + ((C08.succPcs b i).map (fun s => m.getD s 0)).foldl max 0)) m
+  let rec go (fuel : Nat) (m : Std.HashMap Nat Nat) : Std.HashMap Nat Nat :=
+    match fuel with
+    | 0 => m
+    | fuel + 1 =>
+      let m' := sweep m
+      if b.instrs.all (fun i => m'.getD i.pc 0 == m.getD i.pc 0) then m' else go fuel m'
+  let m := go 12 {}
+  b.instrs.map (fun i => (i.pc, m.getD i.pc 0))
+
 def step (_ : Unit) (toks : List String) : Unit × String :=
   match toks with
   | "block" :: rest =>
@@ -87,8 +104,9 @@ def step (_ : Unit) (toks : List String) : Unit × String :=
      | none => ((), "bad-op")
      | some b =>
        let annot := inferBlock b
-       let guarded := C08.loopGuarded b
-       let g := if guarded then 1 else 0
+       let rk := inferRank b
+       let guarded := C08.rankOk b rk
+       let g := if guarded then s!"1 maxrank={C08.maxRank rk}" else "0 maxrank=-"
        let dump := " ".intercalate (annot.reverse.map (fun p => s!"{p.1}:{p.2.arg}:{p.2.env}:{p.2.bind}"))
        if check b annot then ((), s!"ok guarded={g} n={annot.length} " ++ dump)
        else if checkRel b annot then
